@@ -440,6 +440,9 @@ func C06(tier string) *engine.Report {
 	// payload-inspecting reader option: ValidateUTF8(true) against every fragmentation of short text and binary payloads
 	ures := c06UTF8DFS(tier).Run()
 	tot.Add(ures, rep)
+	ares := c06AnswerDFS(tier).Run()
+	tot.Add(ares, rep)
+	rep.Coverage["answering_reader"] = map[string]any{"executions": ares.Executions, "finished": ares.Exhaustive, "violations": len(ares.Violations)}
 	rep.Coverage["utf8_family"] = map[string]any{"executions": ures.Executions, "finished": ures.Exhaustive, "violations": len(ures.Violations)}
 	tot.Fill(rep, "sessions generated from choice points (message count, type, 8 payload length classes up to the maximum, fragmentation into <=3 fragments incl. empty ones, ping/pong (0, 5 or 125 bytes: the largest legal control payload) in any gap, a cut at any byte position or byte-by-byte delivery) "+
 		"x 4 read APIs x inline/deferred completion; all combinations of up to N deviations (fragmentation, control insertion, text type, extra message, each cut) from the default session; "+
@@ -450,6 +453,9 @@ func C06(tier string) *engine.Report {
 func C06Replay(v engine.Violation, log func(string)) *engine.Violation {
 	if strings.HasPrefix(v.Config, "resumed-session@") {
 		return c18ResumedDFS(v.Config[16:]).ReplayChoices(v.Choices)
+	}
+	if strings.HasPrefix(v.Config, "answering@") {
+		return c06AnswerDFS(v.Config[len("answering@"):]).ReplayChoices(v.Choices)
 	}
 	if strings.HasPrefix(v.Config, "utf8@") {
 		return c06UTF8DFS(v.Config[5:]).ReplayChoices(v.Choices)
